@@ -183,6 +183,12 @@ structure Kernel where
       exhausted) stays in the table for ever, and so does its binding.  `true` = proposed
       repair: such a child is removed at the moment it is aborted. -/
   fixReap : Bool := false
+  /-- Repair 2e36826: a segment carrying SYN or FIN that reaches an open connection and is not
+      accepted is answered with an ACK (before: dropped silently). -/
+  fixAck : Bool := false
+  /-- Repair bf8d44c: `egress_since_ack` / `retx_attempts` are reset when the handshake
+      completes (before: the first FIN inherited the counters and was retransmitted spuriously). -/
+  fixRetxReset : Bool := false
 deriving Repr, Inhabited
 
 inductive Err
@@ -354,7 +360,7 @@ def pushToListener (k : Kernel) (child : Fd) (l : Ep) : Kernel :=
   | some lfd =>
     { k with tbl := k.tbl.modify lfd fun s => { s with listen := s.listen.map (· ++ [child]) } }
 
-def handleEstablished (k : Kernel) (fd : Fd) (l r : Ep) (ack fin : Bool) : Kernel :=
+def handleEstablished (k : Kernel) (fd : Fd) (l r : Ep) (syn ack fin : Bool) : Kernel :=
   match k.tbl.get fd with
   | none => k
   | some s =>
@@ -384,7 +390,7 @@ def handleEstablished (k : Kernel) (fd : Fd) (l r : Ep) (ack fin : Bool) : Kerne
         { tc with state := st2, peerFin := tc.peerFin || takeFin,
                   finAcked := tc.finAcked || progress,
                   esa := if progress then 0 else tc.esa, retx := if progress then 0 else tc.retx }
-      if takeFin then k.emit ⟨l, r, .tcp false true false false⟩ else k
+      if takeFin || (k.fixAck && (fin || syn)) then k.emit ⟨l, r, .tcp false true false false⟩ else k
 
 def handleOnConn (k : Kernel) (fd : Fd) (l r : Ep) (syn ack fin rst : Bool) : Kernel :=
   if rst then
@@ -402,14 +408,17 @@ def handleOnConn (k : Kernel) (fd : Fd) (l r : Ep) (syn ack fin rst : Bool) : Ke
         match tc.state with
         | .synSent =>
           if syn && ack then
-            (k.modTcb fd fun tc => { tc with state := .estab }).emit ⟨l, r, .tcp false true false false⟩
+            (k.modTcb fd fun tc => { tc with state := .estab, esa := if k.fixRetxReset then 0 else tc.esa,
+                                               retx := if k.fixRetxReset then 0 else tc.retx }).emit
+              ⟨l, r, .tcp false true false false⟩
           else k
         | .synRecv =>
           if ack && !syn then
-            (k.modTcb fd fun tc => { tc with state := .estab }).pushToListener fd l
+            (k.modTcb fd fun tc => { tc with state := .estab, esa := if k.fixRetxReset then 0 else tc.esa,
+                                               retx := if k.fixRetxReset then 0 else tc.retx }).pushToListener fd l
           else k
         | .closed => k
-        | _ => k.handleEstablished fd l r ack fin
+        | _ => k.handleEstablished fd l r syn ack fin
 
 /-- `tcp::deliver`. -/
 def deliverTcp (k : Kernel) (src dst : Ep) (syn ack fin rst : Bool) : Kernel :=
@@ -600,9 +609,10 @@ deriving Repr, Inhabited
 
 namespace Fabric
 
-def addHost (f : Fabric) (addrs : List Ip) (fixReap : Bool := false) : Fabric :=
+def addHost (f : Fabric) (addrs : List Ip) (fixReap : Bool := false) (fixAck : Bool := false)
+    (fixRetxReset : Bool := false) : Fabric :=
   let id := f.hosts.length
-  { hosts := f.hosts ++ [{ addrs := addrs.eraseDups, fixReap := fixReap }],
+  { hosts := f.hosts ++ [{ addrs := addrs.eraseDups, fixReap := fixReap, fixAck := fixAck, fixRetxReset := fixRetxReset }],
     ipToHost := f.ipToHost ++ addrs.map fun a => (a, id) }
 
 def hostForIp (f : Fabric) (ip : Ip) : Option Nat :=
